@@ -384,6 +384,22 @@ def _api_program(f, inp):
     if sh == "astype-filter":
         g = f.assign(h=f[a] * 0.5).astype({"h": "int64"})
         return g[g["h"] >= k][["h", b]]
+    if sh == "filter-head-head":
+        # Head(Head(x, n1, npartitions=k1), n2): the collapsed Head must keep looking at k1 partitions of x
+        # (a filter may have emptied the first ones)
+        import pandas as pd
+        y = f[f[a] > k]
+        n1, n2, k1 = inp["heads"]
+        if isinstance(f, pd.DataFrame):
+            b_ = U.bounds_of(inp["lens"])
+            nparts = len(inp["lens"]) if k1 == -1 else k1
+            first = pd.concat([f.iloc[b_[i]:b_[i + 1]] for i in range(nparts)]) if nparts else f.iloc[:0]
+            first = first[first[a] > k]
+            return first.head(n1).head(n2)
+        import warnings
+        with warnings.catch_warnings():
+            warnings.simplefilter("ignore")
+            return y.head(n1, npartitions=k1, compute=False).head(n2, compute=False)
     if sh == "or-filter-binop":
         x = f[[a, b]]
         flt = x[((x[a] > k) & (x[b] > 0)) | ((x[a] > k) & (x[b] < -1))]
@@ -391,7 +407,103 @@ def _api_program(f, inp):
     raise KeyError(sh)
 
 
-CASES = {"trace": case_trace, "api": case_api}
+# ------------------------------------------------------------------------------------------------
+# rewrite_filters (OR-of-AND predicates): function level vs the Lean model, truth-table oracle, API level
+# ------------------------------------------------------------------------------------------------
+
+_OPS = {"lt": lambda a, b: a < b, "le": lambda a, b: a <= b, "gt": lambda a, b: a > b, "ge": lambda a, b: a >= b,
+        "eq": lambda a, b: a == b, "ne": lambda a, b: a != b}
+
+
+def _pred_build(frames, atoms, t):
+    """predicate tree -> pandas/dask boolean series; atom i reads frames[atoms[i][3] % len(frames)]"""
+    if t[0] == "atom":
+        col, op, k, which, neg = atoms[t[1]]
+        f = frames[which % len(frames)]
+        a = _OPS[op](f[col], k)
+        return ~a if neg else a
+    l, r = _pred_build(frames, atoms, t[1]), _pred_build(frames, atoms, t[2])
+    return (l & r) if t[0] == "and" else (l | r)
+
+
+def _pred_sexp(t):
+    if t[0] == "atom":
+        return [Sym("atom"), t[1]]
+    return [Sym(t[0]), _pred_sexp(t[1]), _pred_sexp(t[2])]
+
+
+def _pred_of_expr(e, names):
+    cls = type(e).__name__
+    if cls in ("And", "Or"):
+        return [cls.lower(), _pred_of_expr(e.left, names), _pred_of_expr(e.right, names)]
+    if e._name not in names:
+        raise KeyError("rewrite_filters produced a node that is not one of the input atoms: " + str(e))
+    return ["atom", names[e._name]]
+
+
+def _sexp_to_tree(x):
+    if x[0] == "atom":
+        return ["atom", int(x[1])]
+    return [str(x[0]), _sexp_to_tree(x[1]), _sexp_to_tree(x[2])]
+
+
+def case_orrewrite(ctx, inp):
+    import pandas as pd
+    from dask.dataframe.dask_expr._expr import And, Or, _get_predicate_components, rewrite_filters
+    df = _mk(inp)
+    d = U.from_parts(df, inp["lens"], known=inp.get("known", True))
+    atoms, tree = inp["atoms"], inp["tree"]
+    atoms = [list(a) + [0, False][len(a) - 3:] for a in atoms]
+    # the same atom built twice has the same name: one frame only at function level
+    pred = _pred_build([d], atoms, tree)
+    names = {}
+    for i in range(len(atoms)):
+        nm = _pred_build([d], atoms, ["atom", i]).expr._name
+        names.setdefault(nm, i)      # two syntactically equal atoms ARE the same conjunct for the code
+    canon = {i: names[_pred_build([d], atoms, ["atom", i]).expr._name] for i in range(len(atoms))}
+
+    def canon_tree(t):
+        return ["atom", canon[t[1]]] if t[0] == "atom" else [t[0], canon_tree(t[1]), canon_tree(t[2])]
+    ctree = canon_tree(tree)
+    got = _pred_of_expr(rewrite_filters(pred.expr), names)
+    model = _sexp_to_tree(ctx.lean(Sym("rewritefilters"), _pred_sexp(ctree)))
+    ctx.eq("rewrite_filters", model, got)
+    for kind, cls in (("or", Or), ("and", And)):
+        comps = [_pred_of_expr(c, names) for c in _get_predicate_components(pred.expr, [], type_=cls)]
+        ctx.eq("_get_predicate_components(%s)" % kind, [_sexp_to_tree(c) for c in ctx.lean(Sym("predcomps"), Sym(kind), _pred_sexp(ctree))], comps)
+    # property oracle: the rewritten predicate selects the same rows (pandas semantics, row by row)
+    before = _pred_build([df], atoms, tree)
+    after = _pred_build([df], atoms, got)
+    if list(before) != list(after):
+        ctx.fail("rewrite_filters changed the rows the predicate selects", observed=[bool(v) for v in after],
+                 expected=[bool(v) for v in before])
+    # API level: the filter (optionally reading the atoms through a copy() of the frame, so that the common
+    # conjuncts only coincide after the filter has been pushed below the copy)
+    frames_d, frames_p = [d], [df]
+    if inp.get("copy"):
+        frames_d, frames_p = [d.copy(), d], [df.copy(), df]
+    target_d, target_p = frames_d[0], frames_p[0]
+    expected = target_p[_pred_build(frames_p, atoms, tree)]
+    coll = target_d[_pred_build(frames_d, atoms, tree)]
+    if inp.get("tailsel"):
+        cols = [c for c in df.columns][:2]
+        expected, coll = expected[cols], coll[cols]
+    _four_way(ctx, coll, expected)
+    clauses = inp.get("clauses", [])
+    shared = set(clauses[0]) if clauses else set()
+    for c in clauses[1:]:
+        shared &= set(c)
+    ctx.branch("orrw-shared-%d" % min(len(shared), 2))
+    for j, c in enumerate(clauses):
+        if shared and set(c) <= shared:
+            ctx.branch("orrw-absorbing-" + ("first" if j == 0 else "last" if j == len(clauses) - 1 else "middle"))
+    if model != ctree:
+        ctx.branch("orrw-rewritten")
+    if inp.get("copy"):
+        ctx.branch("orrw-through-copy")
+
+
+CASES = {"trace": case_trace, "api": case_api, "orrewrite": case_orrewrite}
 
 
 # ------------------------------------------------------------------------------------------------
@@ -500,8 +612,46 @@ def gen_frame(rng):
     return {"cols": cols, "index": idx, "lens": U.gen_lens(rng, n, 4), "known": rng.random() < 0.7}, names
 
 
+def gen_orrewrite(rng):
+    """OR of AND clauses whose shared conjuncts sit in every position; an ABSORBING clause (shared conjuncts only) first, in
+    the middle or last; occasionally duplicated conjuncts and syntactically equal atoms under two ids"""
+    inp, names = gen_frame(rng)
+    natoms = rng.randint(2, 6)
+    atoms = []
+    for _ in range(natoms):
+        atoms.append([rng.choice(names), rng.choice(["lt", "le", "gt", "ge", "eq", "ne"]), rng.randint(-1, 4), rng.randint(0, 1),
+                      rng.random() < 0.15])
+    if rng.random() < 0.2:
+        atoms.append(list(atoms[0]))            # the same conjunct under a second id
+    ids = list(range(len(atoms)))
+    nclauses = rng.randint(2, 4)
+    shared = rng.sample(ids, rng.randint(0, min(2, len(ids))))
+    absorbing = rng.randrange(nclauses) if (shared and rng.random() < 0.6) else None
+    clauses = []
+    for j in range(nclauses):
+        extra = [] if j == absorbing else rng.sample(ids, rng.randint(0 if shared else 1, min(3, len(ids))))
+        c = list(shared) + extra
+        if rng.random() < 0.15 and c:
+            c.append(rng.choice(c))             # a conjunct twice inside one clause
+        rng.shuffle(c)
+        clauses.append(c or [rng.choice(ids)])
+
+    def fold(kind, items):
+        items = list(items)
+        while len(items) > 1:
+            i = rng.randrange(len(items) - 1)   # random association
+            items[i:i + 2] = [[kind, items[i], items[i + 1]]]
+        return items[0]
+    tree = fold("or", [fold("and", [["atom", a] for a in c]) for c in clauses])
+    inp.update({"atoms": atoms, "tree": tree, "clauses": clauses, "copy": rng.random() < 0.35, "tailsel": rng.random() < 0.3})
+    inp["lens"] = U.snap_lens(inp["index"], inp["lens"])
+    return inp
+
+
 def generate(ctx):
     rng = ctx.rng
+    for _ in range(ctx.n(90, 1500)):
+        yield "orrewrite", gen_orrewrite(rng)
     for _ in range(ctx.n(170, 2500)):
         inp, names = gen_frame(rng)
         inp["prog"] = gen_assign_chain(rng, names) if rng.random() < 0.3 else gen_prog(rng, names, rng.randint(1, 5))
@@ -509,7 +659,8 @@ def generate(ctx):
         yield "trace", inp
     shapes = ["reduction-in-predicate", "two-consumers", "shared-filter", "sum-of-filtered-projection", "diamond", "count",
               "filter-then-reduction-filter", "filter-then-reduction-filter", "astype-filter", "or-filter-binop",
-              "filter-then-nonlocal-filter", "filter-then-nonlocal-filter", "and-with-reduction-then-projection"]
+              "filter-then-nonlocal-filter", "filter-then-nonlocal-filter", "and-with-reduction-then-projection",
+              "filter-head-head", "filter-head-head"]
     for _ in range(ctx.n(110, 1000)):
         inp, names = gen_frame(rng)
         inp["prog"] = [st for st in gen_prog(rng, names, rng.randint(0, 3)) if st[0] != "sel"]
@@ -520,6 +671,9 @@ def generate(ctx):
         inp["red"] = rng.choice(["mean", "max", "min", "count", "sum"])
         inp["tailsel"] = rng.random() < 0.5
         inp["nonlocal_op"] = rng.choice(["cumsum", "shift", "diff", "cummax", "frame-cumsum", "rolling"])
+        inp["heads"] = [rng.randint(1, 8), rng.randint(1, 4), rng.choice([-1, -1, 1, 2, len(inp["lens"])])]
+        if inp["heads"][2] > len(inp["lens"]):
+            inp["heads"][2] = len(inp["lens"])
         if inp["shape"] == "filter-then-nonlocal-filter":
             # shift/diff/rolling need partitions that can lend a row: keep every partition non-trivial
             n = len(inp["index"])
